@@ -6,10 +6,15 @@
                        (row of 1st-order coefficients, 0th-order coefficient)   [the code keeps two dictionaries
                        _coeffs_1st / _coeffs_0th that are always written together with the same key]
      calc_matA/vecB  : sorted(dict.items()) stacked
-     calc_prob_dists : (A var + b).reshape((num_schedules, -1)) then truncate_and_normalize          (as coded)
-     calc_fisher_matrix's slicing  size = int(len(A) / num_schedules), rows [size*j, size*(j+1))     (as coded)
-     is_fullrank_matA: matrix_rank(A) == min(A.shape)
-   and, INDEPENDENTLY of the coefficient dictionaries, the circuit semantics of one schedule
+     calc_prob_dists : np.split(A var + b, np.cumsum(sizes)[:-1]), sizes[j] = num_outcomes(j), truncate_and_normalize on
+                       every piece                       [code after fix calc-prob-dists-mixed-outcome-counts]
+     calc_fisher_matrix's slicing  rows [start, start + num_outcomes(j)), start = sum of num_outcomes(i), i < j
+                                                         [code after fix calc-fisher-matrix-mixed-outcome-counts]
+     is_fullrank_matA: matrix_rank(A) == A.shape[1]      [code after fix fullrank-guard-column-rank (owner C09)]
+   The definitions [calc_prob_dists_reshape], [fisher_prob_dist_evenslice], [is_fullrank_matA_minshape] are the code AS IT WAS
+   BEFORE those fixes (reshape((num_schedules, -1)); size = int(len(A)/num_schedules); == min(A.shape)); they are kept only
+   as the subject of the *_refuted theorems and of the compatibility theorems (equal outcome counts: same result).
+   The model also contains, INDEPENDENTLY of the coefficient dictionaries, the circuit semantics of one schedule
    (quara/qcircuit/experiment.py calc_prob_dist -> operators.compose_qoperations) computed with the
    coefficient algebra of Model/QObj.v ([born], HS matrix times state vector), the unknown being
    [object_of_var v] (the convert_var_to_vec / vecs / hs / hss functions of State, Povm, Gate, MProcess).
@@ -103,6 +108,7 @@ Definition povmt_per_schedule para sd m (states : list lvec) (scheds : list nat)
   map (fun i => povmt_rows para sd m (nth i states [])) scheds.
 Definition povmt_coeffs para sd m states scheds : dict := build_dict (povmt_per_schedule para sd m states scheds).
 Definition povmt_num_variables (para : bool) (d m : nat) : nat := if para then ((m - 1) * (d * d))%nat else (m * (d * d))%nat.
+Definition povmt_counts (m : nat) (scheds : list nat) : list nat := map (fun _ => m) scheds.       (* num_outcomes(j) *)
 (* Povm.convert_var_to_vecs : last element = (sqrt(dim),0,...,0) - sum of the others *)
 Definition povm_of_var (para : bool) (sd : F) (n m : nat) (v : rvec F) (x : nat) : rvec F :=
   if para && (x =? m - 1)%nat
@@ -190,26 +196,48 @@ Definition qmpt_born (d : nat) (para : bool) (m : nat) (s : lvec) (povm : list l
 Definition ensemble_path (d : nat) (sd : F) (pv : lvec) (HS : rmat F) (s : lvec) : F :=
   let w := mv (d * d) HS (vl s) in let p := sd * w O in p * born d (vl pv) (fun i => w i / p).
 
-(* ------------------------------------------------------------------ calc_prob_dists, Fisher slicing (as coded) *)
+(* ------------------------------------------------------------------ calc_prob_dists, Fisher slicing *)
 Fixpoint chunk (w k : nat) (l : list F) : list (list F) :=
   match k with O => [] | S k' => firstn w l :: chunk w k' (skipn w l) end.
 (* matrix_util.truncate_and_normalize on one row: np.where(row < eps, 0, row) / sum *)
 Definition trunc_norm (eps : F) (row : list F) : list F :=
   let t := map (fun x => if kleb F eps x then x else 0) row in
   map (fun x => x / lsum t) t.
-(* tmp.reshape((num_schedules, -1)) : ValueError (None) unless the length is a multiple of num_schedules *)
-Definition calc_prob_dists (eps : F) (A : list lvec) (b : list F) (v : rvec F) (S : nat) : option (list (list F)) :=
+(* np.split(l, np.cumsum(counts)[:-1]) : len(counts) pieces (one piece for an empty [counts]); piece j has counts[j] entries,
+   except that the LAST piece takes everything that is left *)
+Fixpoint split_np (counts : list nat) (l : list F) : list (list F) :=
+  match counts with
+  | [] => [l]
+  | [_] => [l]
+  | c :: t => firstn c l :: split_np t (skipn c l)
+  end.
+(* one row per schedule, cut at the schedules' own outcome counts *)
+Fixpoint split_counts (counts : list nat) (l : list F) : list (list F) :=
+  match counts with [] => [] | c :: t => firstn c l :: split_counts t (skipn c l) end.
+(* calc_prob_dists AFTER fix calc-prob-dists-mixed-outcome-counts; counts[j] = self.num_outcomes(j).
+   (What is returned is this list of rows; the code stacks them into a 2-D array when all counts are equal and returns the
+   list of 1-D arrays otherwise -- a difference of container the harness checks, not modelled.) *)
+Definition calc_prob_dists (eps : F) (A : list lvec) (b : list F) (v : rvec F) (counts : list nat) : list (list F) :=
+  map (trunc_norm eps) (split_np counts (affine A b v)).
+(* calc_fisher_matrix AFTER fix calc-fisher-matrix-mixed-outcome-counts: the predicted distribution of schedule j it uses,
+   matA[start:stop] @ var + vecB[start:stop],  start = sum(num_outcomes(i) for i in range(j)), stop = start + num_outcomes(j) *)
+Definition fisher_prob_dist (A : list lvec) (b : list F) (v : rvec F) (counts : list nat) (j : nat) : list F :=
+  let start := offset counts j in let c := nth j counts O in
+  affine (firstn c (skipn start A)) (firstn c (skipn start b)) v.
+
+(* ---- the code as it was BEFORE the two fixes (subject of the *_refuted and compatibility theorems only) *)
+(* before fix calc-prob-dists-mixed-outcome-counts:
+   tmp.reshape((num_schedules, -1)) : ValueError (None) unless the length is a multiple of num_schedules *)
+Definition calc_prob_dists_reshape (eps : F) (A : list lvec) (b : list F) (v : rvec F) (S : nat) : option (list (list F)) :=
   let tmp := affine A b v in
   let L := length tmp in
   match S with
   | O => None
   | _ => if (L mod S =? O)%nat then Some (map (trunc_norm eps) (chunk (L / S) S tmp)) else None
   end.
-(* what SHOULD be returned: one row per schedule, cut at the schedules' own outcome counts *)
-Fixpoint split_counts (counts : list nat) (l : list F) : list (list F) :=
-  match counts with [] => [] | c :: t => firstn c l :: split_counts t (skipn c l) end.
-(* calc_fisher_matrix: rows [size*j, size*(j+1)) with size = int(len(matA) / num_schedules); the predicted distribution it uses *)
-Definition fisher_prob_dist (A : list lvec) (b : list F) (v : rvec F) (S j : nat) : list F :=
+(* before fix calc-fisher-matrix-mixed-outcome-counts:
+   rows [size*j, size*(j+1)) with size = int(len(matA) / num_schedules) *)
+Definition fisher_prob_dist_evenslice (A : list lvec) (b : list F) (v : rvec F) (S j : nat) : list F :=
   let size := (length A / S)%nat in
   affine (firstn size (skipn (size * j) A)) (firstn size (skipn (size * j) b)) v.
 
@@ -232,9 +260,12 @@ Fixpoint rank_elim (n : nat) (rows : list lvec) : nat :=
             | Some (p, rest) => S (rank_elim n' (map (fun r => vsubs (hd 0 r / hd 0 p) (tl r) (tl p)) rest))
             end
   end.
-(* is_fullrank_matA : np.linalg.matrix_rank(matA) == min(matA.shape) *)
-Definition is_fullrank_matA (cols : nat) (A : list lvec) : bool := (rank_elim cols A =? Nat.min (length A) cols)%nat.
 Definition fullcolrank_dec (cols : nat) (A : list lvec) : bool := (rank_elim cols A =? cols)%nat.
+(* is_fullrank_matA AFTER fix fullrank-guard-column-rank (owner C09): np.linalg.matrix_rank(matA) == matA.shape[1]
+   (matrix_rank itself is an oracle; the exact elimination stands for it) *)
+Definition is_fullrank_matA (cols : nat) (A : list lvec) : bool := fullcolrank_dec cols A.
+(* before that fix: np.linalg.matrix_rank(matA) == min(matA.shape) -- true for a wide matA with independent rows *)
+Definition is_fullrank_matA_minshape (cols : nat) (A : list lvec) : bool := (rank_elim cols A =? Nat.min (length A) cols)%nat.
 
 (* ------------------------------------------------------------------ specification vocabulary *)
 (* full column rank of a matrix with [n] columns: the kernel is trivial *)
